@@ -303,6 +303,9 @@ func VerifH_C09_ChildRequest() {
 	rt.Cover(rt.And(mode == 0, sf.Missing == search.SortFieldMissingFirst, sf.Desc), "missing-first-desc")
 }
 
+var verifDateStart = time.Date(2020, 1, 2, 3, 4, 5, 123456789, time.UTC)
+var verifDateEnd = time.Date(2021, 6, 7, 8, 9, 10, 500000000, time.UTC)
+
 // VerifH_C17_SearchRequestJSON: a search request (term query; size, from, explain, includeLocations,
 // score mode, stored fields, a terms facet and a numeric range facet, highlight style and fields,
 // search_after key, and a sort of a field key - direction / type / mode / missing policy chosen among
@@ -337,6 +340,9 @@ func VerifH_C17_SearchRequestJSON() {
 		nf.AddNumericRange("low", nil, &lo)
 		nf.AddNumericRange("mid", &lo, &hi)
 		req.AddFacet("ranges", nf)
+		df := NewFacetRequest("d", 2)
+		df.AddDateTimeRange("recent", verifDateStart, verifDateEnd)
+		req.AddFacet("dates", df)
 	}
 	withHL := extras
 	if withHL {
@@ -378,7 +384,19 @@ func VerifH_C17_SearchRequestJSON() {
 		}
 	}
 	rt.Assert(len(back.Facets) == len(req.Facets), "facet requests survive")
-	if withFacets && len(back.Facets) == 2 {
+	if withFacets && len(back.Facets) == 3 {
+		if d := back.Facets["dates"]; d != nil && len(d.DateTimeRanges) == 1 {
+			r := d.DateTimeRanges[0]
+			rt.Assert(rt.And(r.Name == "recent", r.startString != nil, r.endString != nil), "date range keeps its name and both ends")
+			if r.startString != nil && r.endString != nil {
+				st, err1 := time.Parse(time.RFC3339Nano, *r.startString)
+				en, err2 := time.Parse(time.RFC3339Nano, *r.endString)
+				rt.Assert(err1 == nil && err2 == nil, "date range ends are RFC 3339 text")
+				rt.Assert(st.Equal(verifDateStart) && en.Equal(verifDateEnd), "date range ends survive to the nanosecond")
+			}
+		} else {
+			rt.Fail("date range facet survives")
+		}
 		t, n := back.Facets["terms"], back.Facets["ranges"]
 		rt.Assert(rt.And(t != nil, n != nil), "facet names survive")
 		if t != nil && n != nil {
